@@ -281,7 +281,9 @@ def near_int(q: Fraction):
 
 
 def bound(mode, k, px, pw_exact):
-    """float bound of pixel boundary k: how a caller would compute it"""
+    """float bound of pixel boundary k: how a caller would compute it (inf when the product overflows: such a read is skipped)"""
+    if not math.isfinite(k * px):
+        return math.inf
     if mode == "mul":
         return k * px
     if mode == "exact":
